@@ -54,6 +54,8 @@ def gen_recipe(rng, fmt, tier="quick"):
     }
     if rng.random() < 0.25:
         r["origin_site"] = True
+    if rng.random() < 0.25:
+        r["global_attrs"] = rng.choice(["cf", "acdd", "model"])
     if rng.random() < 0.08 and r["dir"]["dir0"] == 0.0 and base != "funwave":
         r["dir"]["north360"] = True
     if rng.random() < 0.25:
@@ -336,6 +338,8 @@ def features(st, history):
         f.append("no-time-dim")
     if r.get("origin_site") and "site" in dims:
         f.append("site-at-origin" if (r.get("lon0") == 0.0 and r.get("lat0") == 0.0) else "site-at-lon0-lat0")
+    if r.get("global_attrs"):
+        f.append("global-attrs-" + r["global_attrs"])
     if r.get("with_winds") and not st["fmt"].startswith("octopus"):
         f.append("with-winds")
     if r["data"]["kind"] in ("huge", "tiny", "single_bin"):
